@@ -679,6 +679,8 @@ def rewrite_assert(txt, nm):
 def apply_patch(text, p, fired, where):
     old, new = p["old"], p["new"]
     cnt = p.get("count", 1)
+    if p.get("optional") and old not in text and not p.get("flex"):
+        return text     # a redirect of a construct that may or may not be present (e.g. one `X.into()` per listed class)
     if p.get("flex"):
         # whitespace-flexible anchor: any run of whitespace and line comments (or none) between the anchor's tokens matches
         rx = re.compile(r"(?:\s|//[^\n]*\n)*".join(re.escape(tok) for tok in old.split()))
